@@ -115,6 +115,33 @@ def run(res, tier, seed, driver_ok):
         if min(G.maxdiff(ee, c) for c in cands) > 1e-7 * max(1.0, np.max(np.abs(ee))):
             bad('incoherent-after-%s:%s' % ('success' if ok else 'failure', path), 'after IK the reported tool pose is not the pose of the stored joint vector', inp,
                 {'diff': min(G.maxdiff(ee, c) for c in cands)})
+        # targeted starts: the start IS a solution of a nearby goal — the goal is that pose displaced along one basis twist by 0.5x / 3x / 8x
+        # the tolerance of that component — so the solver's test of the starting vector decides; both paths, every tolerance pair
+        if n % 2 == 0:
+            ths = np.array([rnd.uniform(-lim, lim) * 0.8 for _ in range(nj)])
+            T0 = spec.fk(baseT, spec.M, ths)
+            for k in (rnd.randrange(3), 3 + rnd.randrange(3)):
+                for mult in (0.5, 3.0, 8.0):
+                    tw = np.zeros(6); tw[k] = mult * (rot_tol if k < 3 else pos_tol)
+                    goal2 = T0 @ armh.expm6(tw / np.linalg.norm(tw), float(np.linalg.norm(tw)))
+                    for path2 in ('constrained', 'free'):
+                        stats['targeted_starts'] = stats.get('targeted_starts', 0) + 1
+                        try:
+                            with contextlib.redirect_stdout(io.StringIO()):
+                                th2, ok2 = arm.IK(tm(goal2), ths.copy(), check=False, protect=(path2 == 'free'))
+                        except Exception as e:
+                            bad('raises:IK:%s:%s' % (path2, type(e).__name__), 'IK raised', {'arm': kind, 'path': path2}, repr(e)); continue
+                        if not ok2:
+                            continue
+                        th2 = np.asarray(th2, dtype=float).reshape(-1)
+                        V2 = err_twist_ref(spec.fk(baseT, spec.M, th2), goal2)
+                        eo2, ev2 = float(np.linalg.norm(V2[:3])), float(np.linalg.norm(V2[3:]))
+                        if eo2 > rot_tol * (1 + 1e-6) + 1e-12 or ev2 > pos_tol * (1 + 1e-6) + 1e-12:
+                            bad('false-success:%s:%s' % (path2, 'orientation' if eo2 > rot_tol * (1 + 1e-6) else 'position'),
+                                'IK reports success but FK of the returned joint vector misses the configured tolerance',
+                                {'arm': kind, 'seed_arm': seed_arm, 'base6': list(base6), 'limit': lim, 'pos_tol': pos_tol, 'rot_tol': rot_tol, 'start_is_solution_of_displaced_goal': True,
+                                 'theta_start': ths.tolist(), 'displaced_component': k, 'multiple_of_tolerance': mult, 'path': path2},
+                                {'orientation_error': eo2, 'rot_tol': rot_tol, 'position_error': ev2, 'pos_tol': pos_tol})
         # local convergence clause (sampled)
         if gk == 'reachable' and np.all(np.abs(thg) <= lim - 0.15):
             J = arm.jacobian(thg.copy())
@@ -165,7 +192,14 @@ def replay(data):
     arm.setJointProperties(np.ones(n) * -lim, np.ones(n) * lim)
     arm.pos_tolerance, arm.rot_tolerance = inp['pos_tol'], inp['rot_tol']
     baseT = armh.T6(spec.base6)
-    goal = spec.fk(baseT, spec.M, np.array(inp['theta_goal']))
+    if inp.get('start_is_solution_of_displaced_goal'):
+        ths = np.array(inp['theta_start'])
+        k = inp['displaced_component']
+        tw = np.zeros(6); tw[k] = inp['multiple_of_tolerance'] * (inp['rot_tol'] if k < 3 else inp['pos_tol'])
+        goal = spec.fk(baseT, spec.M, ths) @ armh.expm6(tw / np.linalg.norm(tw), float(np.linalg.norm(tw)))
+        inp = dict(inp, start=ths.tolist())
+    else:
+        goal = spec.fk(baseT, spec.M, np.array(inp['theta_goal']))
     with contextlib.redirect_stdout(io.StringIO()):
         th, ok = arm.IK(tm(goal), np.array(inp['start']), check=False, protect=(inp['path'] == 'free'))
     V = err_twist_ref(spec.fk(baseT, spec.M, np.asarray(th).reshape(-1)), goal)
